@@ -15,6 +15,8 @@ import (
 	"fmt"
 	"go/ast"
 	"go/token"
+	"os"
+	"path/filepath"
 	"sort"
 	"strconv"
 	"strings"
@@ -177,6 +179,26 @@ func extSwitch(fd *ast.FuncDecl) extFacts {
 	if fd == nil {
 		return f
 	}
+	// the handler used when there is no extension option: the anteHandler assignment(s) in the statements of
+	// the returned closure that do NOT contain the extension-option switch (`switch tx.(type) {case sdk.Tx: …}`
+	// or a plain assignment)
+	ast.Inspect(fd.Body, func(n ast.Node) bool {
+		fl, ok := n.(*ast.FuncLit)
+		if !ok {
+			return true
+		}
+		var rest []ast.Stmt
+		for _, st := range fl.Body.List {
+			if strings.Contains(Nospace(st), "GetExtensionOptions()") || strings.Contains(Nospace(st), "GetTypeUrl()") {
+				continue
+			}
+			rest = append(rest, st)
+		}
+		if h := handlerAssigned(rest); h != "" {
+			f.noExt = h
+		}
+		return false
+	})
 	ast.Inspect(fd.Body, func(n ast.Node) bool {
 		switch x := n.(type) {
 		case *ast.SwitchStmt:
@@ -221,16 +243,6 @@ func extSwitch(fd *ast.FuncDecl) extFacts {
 						}
 					}
 					f.arms = append(f.arms, [2]string{lit, h})
-				}
-			}
-		case *ast.TypeSwitchStmt:
-			// `switch tx.(type) { case sdk.Tx: anteHandler = NewAnteHandlerNonEVM(options) … }`
-			for _, c := range x.Body.List {
-				cc := c.(*ast.CaseClause)
-				if cc.List != nil {
-					if h := handlerAssigned(cc.Body); h != "" {
-						f.noExt = h
-					}
 				}
 			}
 		case *ast.IfStmt:
@@ -476,6 +488,28 @@ func decRaw(s string) string {
 	return d
 }
 
+// goDirs lists every directory under repo/<root> that holds non-test .go files.
+func goDirs(repo string, roots ...string) []string {
+	var out []string
+	for _, r := range roots {
+		filepath.WalkDir(filepath.Join(repo, r), func(p string, d os.DirEntry, err error) error {
+			if err != nil || !d.IsDir() {
+				return nil
+			}
+			ents, _ := os.ReadDir(p)
+			for _, e := range ents {
+				if !e.IsDir() && strings.HasSuffix(e.Name(), ".go") && !strings.HasSuffix(e.Name(), "_test.go") {
+					out = append(out, p)
+					break
+				}
+			}
+			return nil
+		})
+	}
+	sort.Strings(out)
+	return out
+}
+
 // ---------------------------------------------------------------- main entry
 
 // Emit prints every definition (the caller has printed the header).
@@ -587,6 +621,34 @@ func Emit(repo string) {
 	}
 	fmt.Printf("Definition wasm_handler : wasm_facts := {| w_validate_basic := %s; w_signer_is_contract := %s; w_refuses_eth := %s; w_commission_check := %s; w_routes := %s |}.\n",
 		CoqBool(vb), CoqBool(signer), CoqBool(refusesEth), CoqBool(commission), CoqBool(routes))
+
+	// extension options registered with the interface registry (anything else fails tx decoding)
+	var regExt []string
+	for _, dir := range goDirs(repo, "x", "app", "eth") {
+		for _, fl := range ParseDir(dir) {
+			ast.Inspect(fl.F, func(n ast.Node) bool {
+				c, ok := n.(*ast.CallExpr)
+				if !ok || lastIdent(c.Fun) != "RegisterImplementations" || len(c.Args) < 2 {
+					return true
+				}
+				if !strings.Contains(Nospace(c.Args[0]), "TxExtensionOptionI") {
+					return true
+				}
+				for _, a := range c.Args[1:] {
+					if u, ok := a.(*ast.UnaryExpr); ok {
+						if cl, ok := u.X.(*ast.CompositeLit); ok {
+							regExt = append(regExt, lastIdent(cl.Type))
+							continue
+						}
+					}
+					regExt = append(regExt, "?"+Nospace(a))
+				}
+				return true
+			})
+		}
+	}
+	sort.Strings(regExt)
+	fmt.Printf("Definition registered_ext_options : list string := %s.\n", coqStrList(regExt))
 
 	// SigGasConsumer installed by app.go
 	sgc := "?"
